@@ -995,8 +995,14 @@ class Builder(object):
                     index +=1
 
                 elif connective == 'keep':
-                    keep = max(0, int(Convert2Num(tokens[index])))
+                    keep = Convert2Num(tokens[index])
                     index +=1
+                    try:
+                        keep = max(0, int(keep))
+                    except (TypeError, ValueError, OverflowError):
+                        msg = "Error building %s. Bad keep copies got %s." %\
+                              (command, keep)
+                        raise excepting.ParseError(msg, tokens, index)
 
                 elif connective == 'cycle':
                     term = max(0.0, abs(Convert2Num(tokens[index])))
